@@ -1108,7 +1108,9 @@ func (x *vc) convert(fr *frame, st *state, in *ssa.Convert, pos string) Val {
 		// string(rune)
 		r := x.freshVal("runestr", to, st)
 		x.assume(st.guard, and(app("<=", "1", app("slen", r.T)), app("<=", app("slen", r.T), "4"),
-			implies(and(app("<=", "0", v.T), app("<", v.T, "128")), and(eq(app("slen", r.T), "1"), eq(app("sbyte", r.T, "0"), v.T)))))
+			implies(and(app("<=", "0", v.T), app("<", v.T, "128")), and(eq(app("slen", r.T), "1"), eq(app("sbyte", r.T, "0"), v.T))),
+			// anything else is encoded in at least two bytes (or as U+FFFD: three), the first of them not ASCII
+			implies(not(and(app("<=", "0", v.T), app("<", v.T, "128"))), and(app(">=", app("slen", r.T), "2"), app(">=", app("sbyte", r.T, "0"), "128")))))
 		return r
 	case fs == sSlice && ts == sStr:
 		r := x.freshVal("bytes2str", to, st)
